@@ -4,8 +4,7 @@
    what the 64-bit bit counter does when it wraps.  Expected values were produced independently
    (Python hashlib / hmac) and agree with the values printed in the standards. *)
 From Coq Require Import Arith NArith List.
-From LCP Require Import Base.CheckedMem Alg.Words Alg.MDSpec Alg.Sha256Spec Alg.Sha1Spec Alg.Md5Spec
-     Alg.HashSpecs Alg.Sha256Model Alg.MD32Model Alg.HmacModel Alg.HashRepo Alg.HashRepoProofs Alg.Sha256Proofs.
+From LCP Require Import Base.CheckedMem Alg.Words Alg.MDSpec Alg.Sha256Spec Alg.Sha1Spec Alg.Md5Spec Alg.HashSpecs Alg.Sha256Model Alg.MD32Model Alg.HmacModel Alg.HashRepo Alg.HashRepoProofs Alg.Sha256Proofs.
 Import ListNotations.
 Local Open Scope N_scope.
 
